@@ -1,7 +1,7 @@
 #!/bin/bash
 # usage: confirm_mutant.sh <ID> <A|B> [patchfile]  -> writes /tmp/confirm/<ID>-<V>.txt
 # Confirms a seeded change in a scratch worktree of /repo HEAD: applies, builds, 79 tests pass, demo fails with / passes without.
-id=$1; v=$2; src=/tmp/wt-out/$id/$v; patch=${3:-$src/patch.diff}
+id=$1; v=$2; src=${SRC_BASE:-/tmp/wt-out}/$id/$v; patch=${3:-$src/patch.diff}
 wt=/tmp/confirm/wt-$id-$v; out=/tmp/confirm/$id-$v.txt
 rm -rf $wt; git -C /repo worktree prune; git -C /repo worktree add -q --detach $wt HEAD || exit 2
 cd $wt; export CARGO_NET_OFFLINE=true
